@@ -64,13 +64,15 @@ def c12(ctx):
                        "pairs), and structured patterns built from the fragment's constructs (braced quantifiers with bounds up to 2^63-1, "
                        "Annex B literals { } ], \\c \\x \\u \\0 escapes with and without their operands, code point escapes, astral "
                        "characters), strings over %s and structured patterns with decimal escapes next to capturing and other groups, "
-                       "each in the modes in which it satisfies in_fragment: the extracted recogniser "
+                       "strings over %s and structured patterns with character classes (ranges, class escapes, \\b \\- \\cX, escapes as endpoints), "
+                       "each in the modes in which it satisfies in_grammar (where Grammar.v is the whole ES2022 grammar; contains in_fragment, "
+                       "the side condition of C12_fragment_equiv): the extracted recogniser "
                        "(FragParser.recognises, proved equivalent to the inductive predicate Pattern u of Regex/Grammar.v: "
                        "C12_recogniser_decides_grammar) accepts iff `new RegExp` does not throw; patterns whose bounds V8 clamps to 2^31-1 "
                        "are excluded (%d); non-trivial := accepted string"
                        % ("".join(R.FRAGMENT_ALPHABET), 6 if ctx.tier == "thorough" else 5, "".join(R.BRACE_ALPHABET),
                           5 if ctx.tier == "thorough" else 4, "".join(R.ESCAPE_ALPHABET), "".join(R.SURROGATE_ALPHABET),
-                          "".join(R.BACKREF_ALPHABET), gs.get("v8_clamp_excluded", 0)),
+                          "".join(R.BACKREF_ALPHABET), "".join(R.CLASS_ALPHABET), gs.get("v8_clamp_excluded", 0)),
                        distribution={"grammar_vs_v8": gs})
     ctx.obligation("extracted model started from a deliberately dirty validator state decides like a fresh one (%d cases)" % cnt["dirty_cases"],
                    not r["dirty"], json.dumps(r["dirty"][:3], ensure_ascii=False))
